@@ -300,6 +300,15 @@ fn totality(rep: &mut Report, thorough: bool) {
         jobs.push((4, v));
     }
     let blobs_ref = &blobs;
+    // two valid public keys (X25519 and Ed25519 form) to surround a mutant block in a multi-key PEM text
+    let sa: [u8; 32] = core::array::from_fn(|i| (i as u8).wrapping_mul(5).wrapping_add(1));
+    let sb: [u8; 32] = core::array::from_fn(|i| (i as u8).wrapping_mul(11).wrapping_add(7));
+    let der_a = generate_keypair(&mut FixedRng(sa)).unwrap().public_der.to_vec();
+    let der_b = ed_pub_der(&sb);
+    let key_a = *parse_openssl_25519_pubkey_der(&der_a).unwrap().as_bytes();
+    let key_b = *parse_openssl_25519_pubkey_der(&der_b).unwrap().as_bytes();
+    let pem_a = pem("PUBLIC KEY", &der_a, 64, "\n", "", "");
+    let pem_b = pem("PUBLIC KEY", &der_b, 64, "\r\n", "", "");
     let r = infra::par_explore(&jobs, |(bi, m), rep| {
         rep.evaluations += 1;
         rep.transitions += 4;
@@ -325,6 +334,30 @@ fn totality(rep: &mut Report, thorough: bool) {
                 // raw DER and the same DER in PEM must agree
                 if sp != sp2 || pp != pp2 {
                     rep.violate(Violation { sig: json!({"kind": "pem_and_der_parse_differently"}), detail: format!("{}: raw DER -> ({:?},{:?}), PEM-wrapped -> ({:?},{:?})", hex::encode(m), sp.is_some(), pp.is_some(), sp2.is_some(), pp2.is_some()), replay: replay.clone(), weight: m.len() as u64 });
+                }
+                // the multi-key parser on a text holding this block at the first / middle / last position between two
+                // valid keys: all keys in order when the block is a valid public key, an error otherwise
+                for posn in 0..3usize {
+                    let mut parts: Vec<&[u8]> = vec![&pem_a, &pem_b];
+                    parts.insert(posn, &wrapped_pub);
+                    let text: Vec<u8> = parts.concat();
+                    let got = guard(|| parse_openssl_25519_pubkeys_pem_many(&text).map(|v| v.iter().map(|p| *p.as_bytes()).collect::<Vec<_>>()).ok());
+                    rep.transitions += 1;
+                    let want: Option<Vec<[u8; 32]>> = pp2.map(|k| {
+                        let mut w = vec![key_a, key_b];
+                        w.insert(posn, k);
+                        w
+                    });
+                    match got {
+                        Err(p) => rep.violate(Violation { sig: json!({"kind": "panic", "panic": p.sig()}), detail: format!("multi-key PEM with block {} panics: {p:?}", hex::encode(m)), replay: replay.clone(), weight: m.len() as u64 }),
+                        Ok(g) if g == want => {}
+                        Ok(g) => rep.violate(Violation {
+                            sig: json!({"kind": "multi_key_pem_disagrees_with_single_key_parser", "single": if want.is_some() { "accepted" } else { "rejected" }}),
+                            detail: format!("block {} at position {posn} of 3: the single-key parser {} it, the multi-key parser returns {:?} key(s)", hex::encode(m), if want.is_some() { "accepts" } else { "rejects" }, g.map(|v| v.len())),
+                            replay: replay.clone(),
+                            weight: m.len() as u64,
+                        }),
+                    }
                 }
                 // an accepted private key must be the key material found at the end of the blob
                 // (bytes after the outer SEQUENCE are ignored by the DER parser: not judged)
@@ -360,7 +393,7 @@ pub fn run(started: Instant) -> i32 {
         rep,
         Meta {
             level: "exploration",
-            rule: "round trips for seeds {00.., FF.., the 256 one-bit seeds, 64 seeded}: generate_keypair -> DER and PEM -> parse (strict and auto-detecting entry points) -> public = X25519(clamp(seed)) computed with x25519-dalek; Ed25519-form private/public (computed with curve25519-dalek) convert to a matching X25519 pair, also through PEM. PEM: line widths 1..76 x LF/CRLF x leading/trailing blank lines (an accepted variant must give the same key, the standard one must be accepted); 1..4 concatenated PEM public keys. Totality: for the 4 valid DER blobs every truncation, every byte x 256 values, pairs of positions x {00,FF,80}, trailing garbage, OID neighbours, and consistently re-framed DER (every inner payload length 0..34 with all lengths recomputed, wrong inner tags/lengths, versions, 6 OIDs, wrong outer tag, extra element; public BIT STRINGs of every length and unused-bit count), each also PEM-wrapped, plus random strings (supplementary): no panic, raw DER and PEM-wrapped DER agree, an accepted private key is the key material of the input".to_string(),
+            rule: "round trips for seeds {00.., FF.., the 256 one-bit seeds, 64 seeded}: generate_keypair -> DER and PEM -> parse (strict and auto-detecting entry points) -> public = X25519(clamp(seed)) computed with x25519-dalek; Ed25519-form private/public (computed with curve25519-dalek) convert to a matching X25519 pair, also through PEM. PEM: line widths 1..76 x LF/CRLF x leading/trailing blank lines (an accepted variant must give the same key, the standard one must be accepted); 1..4 concatenated PEM public keys. Totality: for the 4 valid DER blobs every truncation, every byte x 256 values, pairs of positions x {00,FF,80}, trailing garbage, OID neighbours, and consistently re-framed DER (every inner payload length 0..34 with all lengths recomputed, wrong inner tags/lengths, versions, 6 OIDs, wrong outer tag, extra element; public BIT STRINGs of every length and unused-bit count), each also PEM-wrapped, plus random strings (supplementary): no panic, raw DER and PEM-wrapped DER agree, the multi-key PEM parser given the block at the first / middle / last position between two valid keys returns all keys in order if the block is a valid public key and an error otherwise, an accepted private key is the key material of the input".to_string(),
             exhaustive: true,
             bounds: json!({"seeds": 2 + 256 + 64, "pem_widths": "1..=76", "pair_mutations": if thorough { "all pairs" } else { "pairs with one position in the structural part" }}),
             assumptions: vec!["'all 32-byte seeds' is out of reach of enumeration; the code does not branch on seed bytes".to_string()],
